@@ -1,16 +1,106 @@
-"""Counterexample handling: concrete values from Kani, native replay, known-findings lookup."""
-import json, pathlib, re, subprocess, os, time
+"""Counterexample handling: known-findings lookup, concrete values from Kani, native replay.
+
+Replay levels
+  L1  Kani's concrete playback: the solver's assignment is turned into an ordinary #[test] that calls
+      the same harness natively (rustc, no CBMC) inside the scratch copy; the harness executes the real
+      functions of the crate on the concrete inputs.  (Kernel-tagging stubs are not active natively; the
+      table harnesses detect that and compare against the real kernels instead.)
+  L2  where a scenario generator exists (lib/scenarios.py): SimpleSL program text / public-API calls run
+      against an *unpatched* copy of the tree by /verif/replay (no models at all).
+A counterexample is reported as VIOLATION only if it reproduces at L1 (and is not contradicted at L2);
+otherwise the check ends inconclusive (exit 2) and the pair is logged for fixing the machinery.
+"""
+import json, os, pathlib, re, subprocess, time
 import engine
 
 VERIF = engine.VERIF
 
 
-def handle_failure(prop, harness, res, sc, cfg, known, seed):
-    what = '; '.join(f"{f['desc']} @ {f['loc']}" for f in res['failed'][:3])
+def _match_known(known, prop, harness, descs):
     for k in known.get('open', []):
-        if k['property'] == prop and k['harness'] in harness:
-            return {'kind': 'known', 'harness': harness, 'what': f"{k['id']}: {k['what']} [{harness}]"}
-    rp = VERIF / 'replays' / f'{prop}-{harness.split("::")[-1]}.json'
+        if k['property'] != prop:
+            continue
+        if k['harness'] not in harness:
+            continue
+        pat = k.get('check_contains')
+        if pat and not any(pat in d for d in descs):
+            continue
+        return k
+    return None
+
+
+def concrete_values(sc, harness, timeout_s):
+    """Re-run one harness with concrete playback printing; returns (test_code, values) or (None, None)."""
+    cmd = ['cargo', 'kani', '-Z', 'stubbing', '-Z', 'unstable-options', '-Z', 'concrete-playback',
+           '--concrete-playback=print', '--harness-timeout', f'{int(timeout_s)}s',
+           '--target-dir', str(sc.target), '--harness', harness, '--exact',
+           '--cbmc-args', '--max-field-sensitivity-array-size', str(engine.FIELD_SENS)]
+    p = subprocess.run(cmd, cwd=sc.tree, env=engine.kani_env(), text=True, capture_output=True)
+    out = p.stdout + p.stderr
+    m = re.search(r'```\n(.*?)```', out, re.S)
+    if not m:
+        return None, None, out[-3000:]
+    code = m.group(1)
+    vals = []
+    for vm in re.finditer(r'vec!\[([0-9, ]*)\]', code):
+        body = vm.group(1).strip()
+        if body == '' or re.fullmatch(r'[0-9, ]+', body):
+            vals.append([int(x) for x in body.split(',') if x.strip() != ''])
+    return code, vals, ''
+
+
+def playback(sc, harness, code):
+    """Append the generated test next to the harness and run it natively. True = the harness fails natively."""
+    mod = harness.split('::')[-2]
+    files = list(sc.tree.glob(f'src/**/{mod}.rs'))
+    if not files:
+        return None, f'harness module file {mod}.rs not found'
+    f = files[0]
+    tm = re.search(r'fn (kani_concrete_playback_\w+)', code)
+    if not tm:
+        return None, 'no test function in playback output'
+    with f.open('a') as fh:
+        fh.write('\n' + code + '\n')
+    cmd = ['cargo', 'kani', 'playback', '-Z', 'concrete-playback', '--', tm.group(1)]
+    p = subprocess.run(cmd, cwd=sc.tree, env=engine.kani_env(), text=True, capture_output=True)
+    out = p.stdout + p.stderr
+    if re.search(r'test result: FAILED|panicked at', out):
+        return True, out[-1500:]
+    if re.search(r'test result: ok\. 1 passed', out):
+        return False, out[-800:]
+    return None, out[-1500:]
+
+
+def handle_failure(prop, harness, res, sc, cfg, known, seed):
+    descs = [f"{f['desc']}" for f in res['failed']]
+    what = '; '.join(f"{f['desc']} @ {f['loc']}" for f in res['failed'][:3])
+    k = _match_known(known, prop, harness, descs)
+    if k:
+        return {'kind': 'known', 'harness': harness, 'what': f"{k['id']}: {k['what']} [{harness.split('::')[-1]}]"}
+    short = harness.split('::')[-1]
+    rp = VERIF / 'replays' / f'{prop}-{short}.json'
     rp.parent.mkdir(exist_ok=True)
-    rp.write_text(json.dumps({'property': prop, 'harness': harness, 'failed_checks': res['failed'][:10]}, indent=1))
-    return {'kind': 'violation', 'harness': harness, 'replay_path': str(rp), 'what': what}
+    rec = {'property': prop, 'harness': harness, 'failed_checks': res['failed'][:10]}
+    code, vals, err = concrete_values(sc, harness, cfg.get('timeout_replay', 900))
+    if code is None:
+        rec['replay'] = 'no concrete playback test could be generated: ' + err[-500:]
+        rp.write_text(json.dumps(rec, indent=1))
+        return {'kind': 'irreproducible', 'harness': harness, 'why': 'no concrete values from Kani', 'replay_path': str(rp)}
+    rec['concrete_values'] = vals
+    rec['playback_test'] = code
+    ok, log = playback(sc, harness, code)
+    rec['playback_reproduced'] = ok
+    rec['playback_log_tail'] = log
+    rec['how_to_replay'] = ('bin/check %s --only %s --keep   then, in the kept scratch tree, append playback_test to the harness '
+                            'module and run `cargo kani playback -Z concrete-playback -- <test>`' % (prop, short))
+    try:
+        import scenarios
+        l2 = scenarios.level2(prop, harness, res, vals, sc)
+    except Exception as e:  # scenario generators are optional
+        l2 = {'available': False, 'error': repr(e)}
+    rec['level2'] = l2
+    rp.write_text(json.dumps(rec, indent=1))
+    if ok and not (l2.get('available') and l2.get('reproduced') is False and l2.get('authoritative')):
+        return {'kind': 'violation', 'harness': harness, 'replay_path': str(rp), 'what': what}
+    return {'kind': 'irreproducible', 'harness': harness, 'replay_path': str(rp),
+            'why': 'native playback did not fail' if ok is False else ('playback could not run: ' + log[-300:])}
